@@ -192,7 +192,7 @@ fn kind_key(text: &str, off: u32) -> String {
 pub fn templated_workspace() -> Workspace {
     // `tag` is declared by two of the three constructors (not a common field), `v` by two
     // constructors with different types
-    let lib = "pub type Shape {\n  Circle(radius: Int, tag: String)\n  Square(side: Int, tag: String)\n  Blob\n}\n\npub type Value {\n  IntValue(v: Int)\n  TextValue(v: String)\n}\n\npub const unit = 1\n\npub fn area(s: Shape) -> Int {\n  case s {\n    Circle(radius: r, tag: _) -> r * r * 3\n    Square(side: x, tag: t) -> x * x\n    Blob -> 0\n  }\n}\n\npub fn show(x: Value) -> String {\n  case x {\n    IntValue(v: _) -> \"i\"\n    TextValue(v: t) -> t\n  }\n}\n";
+    let lib = "pub type Shape {\n  Circle(radius: Int, tag: String)\n  Square(side: Int, tag: String)\n  Blob\n}\n\npub type Value {\n  IntValue(v: Int)\n  TextValue(v: String)\n}\n\npub const unit = 1\n\npub fn area(s: Shape) -> Int {\n  case s {\n    Circle(radius: r, tag: _) -> r * r * 3\n    Square(side: x, tag: t) -> x * x\n    Blob -> 0\n  }\n}\n\npub fn show(x: Value) -> String {\n  case x {\n    IntValue(v: _) -> \"i\"\n    TextValue(v: t) -> t\n  }\n}\n\npub fn toggle(flag: Bool, count: Int, label: String) -> Int {\n  case !flag {\n    True -> 0 - -count\n    False -> panic as label\n  }\n}\n";
     let client = "import lib.{type Shape, Circle, Square, TextValue, area}\nimport lib as l\n\npub fn run(s: Shape) -> Int {\n  let c = Circle(radius: l.unit, tag: \"c\")\n  let q = Square(side: 2, tag: \"q\")\n  let w = TextValue(v: \"w\")\n  area(c) + l.area(s) + area(q) + c.radius\n}\n";
     Workspace {
         packages: vec![WsPackage {
@@ -216,7 +216,7 @@ pub fn templated_workspace() -> Workspace {
 /// Names of the templated workspace that denote ONE entity wherever they are spelled (no
 /// shadowing, no second declaration): a rename started at any occurrence must be accepted and
 /// edit every occurrence - an oracle that does not ask the analysis.
-const TEMPLATE_UNIQUE: &[&str] = &["Circle", "Square", "Blob", "IntValue", "TextValue", "Shape", "Value", "unit", "area", "show"];
+const TEMPLATE_UNIQUE: &[&str] = &["Circle", "Square", "Blob", "IntValue", "TextValue", "Shape", "Value", "unit", "area", "show", "toggle", "flag", "count", "label"];
 
 /// The templated workspace under name substitutions: constructors and types spelled like the
 /// built-in ones (`Ok`, `Error`, `Nil`, `True`, `False`, `Result`, `Bool`), which a module may declare.
